@@ -3,6 +3,7 @@ package main
 import (
 	"encoding/hex"
 	"fmt"
+	"sort"
 	"strconv"
 	"strings"
 )
@@ -81,8 +82,8 @@ func init() {
 			stride, nm, nr, maxc = 1, 100000, 20000, 20000000
 		}
 		sets := []CaseSet{genCorpusAllEntries(maxc), genSingleField(r, stride), genMalformed(r, nm),
-			genRandomStreams(r, "random-streams", nr, fullKnobs(), ""), genChunkedMalformed(r, nm/4)}
-		return sets, "every corpus file through all six entry points; single-field definitions (every known message x listed field + one unlisted, 25 base-type bytes x sizes around the valid ones x both byte orders, sampled 1/" + strconv.Itoa(stride) + " in this tier) each followed by data; mutated and random byte strings through random entry points and read schedules; structured random streams. Oracle: no panic, no hang (10 s per case), outcome class, bytes consumed and full dump equal the model's. distinct = distinct result lines that got past header and file_id", false
+			genRandomStreams(r, "random-streams", nr, fullKnobs(), ""), genChunkedMalformed(r, nm/4), genSizeExtremes(r, nr/3)}
+		return sets, "every corpus file through all six entry points; single-field definitions (every known message x listed field + one unlisted, 25 base-type bytes x sizes around the valid ones x both byte orders, sampled 1/" + strconv.Itoa(stride) + " in this tier) each followed by data; mutated and random byte strings through random entry points and read schedules; structured random streams; size-extreme definitions (counts and byte totals around 8- and 16-bit boundaries). Oracle: no panic, no hang (10 s per case), outcome class, bytes consumed and full dump equal the model's. distinct = distinct result lines that got past header and file_id", false
 	}
 	propPost["C01"] = postNoPanic
 
@@ -93,8 +94,8 @@ func init() {
 		}
 		k := fullKnobs()
 		k.badDefs = 0
-		return []CaseSet{genSingleField(r, stride), genRandomStreams(r, "compatible-random-streams", nr, k, "000"), genWire(r, nr)},
-			"single-field definitions over the regenerated profile (every listed field x base types x sizes x byte order x boundary payloads, sampled 1/" + strconv.Itoa(stride) + "); random multi-definition streams with shuffled fields, unknown messages, unlisted and developer fields, compressed headers; item-level streams (`wire`) on which the model additionally evaluates the record machine and the value specification. distinct = distinct result lines", false
+		return []CaseSet{genSingleField(r, stride), genRandomStreams(r, "compatible-random-streams", nr, k, "000"), genWire(r, nr), genSizeExtremes(r, nr/3)},
+			"definitions whose field counts, developer-field counts, sizes and summed sizes sit around 85/86, 127/128, 255/256, 512 and 765, followed by data and a marker record of another local type; single-field definitions over the regenerated profile (every listed field x base types x sizes x byte order x boundary payloads, sampled 1/" + strconv.Itoa(stride) + "); random multi-definition streams with shuffled fields, unknown messages, unlisted and developer fields, compressed headers; item-level streams (`wire`) on which the model additionally evaluates the record machine and the value specification. distinct = distinct result lines", false
 	}
 	propPost["C02"] = postNoPanic
 
@@ -171,10 +172,19 @@ func init() {
 		if thorough {
 			n = 80000
 		}
-		return []CaseSet{genComponents(r, n), genComponentSweeps(r, thorough)},
-			"record/lap/session/segment_lap/event messages with random and boundary source values in every container that holds them, with preset and fresh accumulators; sweeps of all 2^16 values of 16-bit sources and of compressed_speed_distance triples (sampled in quick)", false
+		comp, sweeps := genComponents(r, n), genComponentSweeps(r, thorough)
+		spec := CaseSet{Name: "expansion-vs-rules"}
+		for _, set := range []CaseSet{comp, sweeps} {
+			for _, c := range set.Cases {
+				if dc, ok := parseDecCase(c); ok {
+					spec.Cases = append(spec.Cases, "devs "+dc.accu+" "+hex.EncodeToString(dc.data))
+				}
+			}
+		}
+		return []CaseSet{comp, sweeps, spec},
+			"every stream also replayed, message by message, against the rule-driven specification interpreted from the profile's component rules (bit slices LSB first, accumulators starting at zero per file): agreement, or disagreement explained exactly by the deviations listed in known_findings.txt; record/lap/session/segment_lap/event messages with random and boundary source values in every container that holds them, with preset and fresh accumulators; sweeps of all 2^16 values of 16-bit sources and of compressed_speed_distance triples (sampled in quick)", false
 	}
-	propPost["C18"] = postNoPanic
+	propPost["C18"] = postC18
 }
 
 // genEveryEntry: one exact-type definition for every (message, field) entry of the profile.
@@ -212,9 +222,9 @@ func init() {
 			stride = 1
 		}
 		return []CaseSet{genEveryEntry(r), genSingleField(r, stride)},
-			"every (message, field) entry of the compiled-in profile with its exact base type and size in both byte orders and four payloads, in a file type that hosts the message (the dump shows which struct field changed and to what); plus the single-field definition sweep; the tables themselves are regenerated by reflection and re-checked by the kernel (gen_wf)", true
+			"every (message, field) entry of the compiled-in profile with its exact base type and size in both byte orders and four payloads, in a file type that hosts the message (the dump shows which struct field changed and to what); plus the single-field definition sweep; the tables themselves are regenerated by reflection and re-checked by the kernel (gen_wf); every (message, field number) shared with the newest bundled SDK workbook must designate the struct field of the workbook's name and type", true
 	}
-	propPost["C15"] = postNoPanic
+	propPost["C15"] = func(res *RunResult) { postNoPanic(res); sdkAssignment(res); sdkSnapshot(res) }
 }
 
 func postC10(res *RunResult) {
@@ -516,3 +526,48 @@ func genComponentSweeps(r *rng, thorough bool) CaseSet {
 	}
 	return cs
 }
+
+// postC18: the model's expansion (tied to the code by the correspondence above) against the
+// rule-driven specification; deviations must be exactly the recorded ones.
+func postC18(res *RunResult) {
+	postNoPanic(res)
+	site := map[string]string{
+		"d10":  "property=C18 site=RecordMsg.Distance cause=csd-byte2-high-nibble-lost",
+		"d11c": "property=C18 site=RecordMsg.TotalCycles cause=accumulator-mask-zero",
+		"d11p": "property=C18 site=RecordMsg.AccumulatedPower cause=accumulator-mask-zero",
+		"d12":  "property=C18 site=RecordMsg.Distance cause=accumulator-survives-file",
+	}
+	counts := map[string]int{}
+	for i, c := range res.Stats.cases {
+		if res.Stats.setOf[i] != "expansion-vs-rules" {
+			continue
+		}
+		out := res.Stats.model[i]
+		counts[out]++
+		if out == "none" {
+			continue
+		}
+		for _, d := range strings.Split(out, "+") {
+			if s, ok := site[d]; ok {
+				res.KnownFindings = appendUniq(res.KnownFindings, s)
+			} else {
+				// replay as the decode case, so that it can be run against the real code
+				f := strings.Split(c, " ")
+				dcase := c
+				if len(f) == 3 {
+					dcase = "dec decode 000 - " + f[1] + " " + f[2]
+				}
+				addViolation(res, dcase, out, "component expansion differs from the profile's rules in a way no recorded finding explains: "+out)
+				break
+			}
+		}
+	}
+	var ks []string
+	for k, v := range counts {
+		ks = append(ks, fmt.Sprintf("%s=%d", k, v))
+	}
+	sortStrings(ks)
+	res.Notes = append(res.Notes, "expansion vs rules: "+strings.Join(ks, " "))
+}
+
+func sortStrings(a []string) { sort.Strings(a) }
